@@ -70,6 +70,7 @@ def gen_case(run_seed: int, index: int, tier: str) -> dict:
         "how": rng.choice(["class", "class", "registry"]), "p_as_tensor": rng.random() < 0.2,
         "warmup": rng.choice([None, None, [3], [2, 5], [4, 1, 2]]),  # earlier calls on the same channel object, other shape
         "warmup_n": rng.choice([1, 1, 2, 4]), "other_instance_first": rng.random() < 0.2, "mode": rng.choice([None, None, "eval", "train"]),
+        "module_cast": rng.choice([None, None, None, "double", "half", "bfloat16", "float", "to_cpu", "deepcopy"]),
         "noncontig": rng.random() < 0.25,
     }
 
@@ -137,6 +138,13 @@ def execute(case: dict) -> RunResult:
     ch = _channel(case)
     if case.get("mode"):
         ch.train(case["mode"] == "train")
+    if case.get("module_cast"):
+        # nn.Module-level operations that do not reconfigure the channel (a whole pipeline is often cast or copied)
+        import copy as _copy
+
+        mc = case["module_cast"]
+        ch = {"double": ch.double, "half": ch.half, "bfloat16": ch.bfloat16, "float": ch.float, "to_cpu": lambda: ch.to("cpu"), "deepcopy": lambda: _copy.deepcopy(ch)}[mc]()
+        res.faults[f"history.module_{mc}"] += 1
     if case.get("warmup"):
         w = torch.randint(0, 2, case["warmup"], generator=torch.Generator().manual_seed(case["data_seed"] ^ 0x33))
         if case["alphabet"] == "pm1":
